@@ -2020,7 +2020,7 @@ func Main(prop string) {
 	}
 	dpos.VerifC01DecorateBlockReward()
 	n := 0
-	nRandom := run.Pick(8, 40)
+	nRandom := run.Pick(6, 40)
 	blocks := run.Pick(5, 12)
 	txs := run.Pick(10, 12)
 	if prop == "C03" {
